@@ -15,6 +15,7 @@
 package casbin
 
 import (
+	"strconv"
 	"strings"
 	"sync"
 	"sync/atomic"
@@ -160,11 +161,19 @@ func (e *CachedEnforcer) InvalidateCache() error {
 func GetCacheKey(params ...interface{}) (string, bool) {
 	key := strings.Builder{}
 	for _, param := range params {
+		// every part carries its length, so that parts containing the "$$" separator
+		// cannot make two different parameter lists produce the same key
 		switch typedParam := param.(type) {
 		case string:
+			key.WriteString(strconv.Itoa(len(typedParam)))
+			key.WriteString(":")
 			key.WriteString(typedParam)
 		case CacheableParam:
-			key.WriteString(typedParam.GetCacheKey())
+			cacheKey := typedParam.GetCacheKey()
+			key.WriteString("@")
+			key.WriteString(strconv.Itoa(len(cacheKey)))
+			key.WriteString(":")
+			key.WriteString(cacheKey)
 		default:
 			return "", false
 		}
